@@ -6,3 +6,16 @@ package fsm
 //@ func (*StateMachine).Height
 //@   pure
 //@   ensures[getter] result == s.height
+
+// ---- C20: AMM arithmetic ----------------------------------------------------------------------------
+// dyOf is the constant-product payout with a 1% fee, floor rounding, in unbounded integers.
+//@ spec func dyOf(x int, y int, dX int) int = (990 * dX * y) / (1000 * x + 990 * dX)
+
+//@ func SafeComputeDY
+//@   requires[nonzero] x > 0 || dX > 0
+//@   ensures[formula] result == dyOf(x, y, dX)
+//@   ensures[bounded] result <= y
+
+// a swap never pays out more than the reserve and never lowers the product of the reserves
+//@ lemma[dy_le_reserve] forall x int, y int, dX int :: 0 <= x && 0 <= y && 0 <= dX && (x > 0 || dX > 0) ==> 0 <= dyOf(x, y, dX) && dyOf(x, y, dX) <= y
+//@ lemma[k_nondecreasing] forall x int, y int, dX int :: 0 <= x && 0 <= y && 0 <= dX && (x > 0 || dX > 0) ==> (x + dX) * (y - dyOf(x, y, dX)) >= x * y
